@@ -403,6 +403,50 @@ def vsizeK : List (Key × Val) → Nat
   | (_, v) :: vs => vsize v + vsizeK vs
 end
 
+/-! ### nesting that the declared types force on an input (value side of the specification) -/
+
+def fieldsOf (E : Env) (k : Nat) : Option (List (String × Ty)) := (E[k]?).map (·.fields)
+
+def isTok : Val → Bool
+  | .tok _ => true
+  | _ => false
+
+def isList : Val → Bool
+  | .list _ => true
+  | _ => false
+
+def isDict : Val → Bool
+  | .dict _ => true
+  | _ => false
+
+/-- `Forced E T v n`: every reading of `v` as a `T` either fails for reasons that have nothing to do with
+depth, or passes through at least `n` nested data-class instances.  Written from the declarations alone
+(which field has which type, what a list / mapping / union contains) — no reference to the parser.
+A cyclic object satisfies `Forced … n` for every `n` along its cycle. -/
+inductive Forced (E : Env) : Ty → Val → Nat → Prop
+  | zero (T : Ty) (v : Val) : Forced E T v 0
+  /-- a leaf / None type never accepts a container -/
+  | leafBad (v : Val) (n : Nat) : isTok v = false → Forced E .leaf v n
+  | noneBad (v : Val) (n : Nat) : isNoneVal v = false → Forced E .none v n
+  /-- a data class never accepts a non-mapping; an undeclared class accepts nothing -/
+  | dataBad (k : Nat) (v : Val) (n : Nat) : isDict v = false ∨ fieldsOf E k = none → Forced E (.data k) v n
+  /-- one more level: a declared field of the class, present in the mapping, forces `n` levels below -/
+  | data (k : Nat) (fields : List (String × Ty)) (kvs : List (Key × Val)) (f : String) (ft : Ty) (sub : Val) (n : Nat) :
+      fieldsOf E k = some fields → fields.lookup f = some ft → lookupKey (.str f) kvs = some sub →
+      Forced E ft sub n → Forced E (.data k) (.dict kvs) (n + 1)
+  /-- any element of a list / tuple (any index) -/
+  | listMem (t : Ty) (vs : List Val) (x : Val) (n : Nat) : x ∈ vs → Forced E t x n → Forced E (.list t) (.list vs) n
+  | tupleMem (t : Ty) (vs : List Val) (x : Val) (n : Nat) : x ∈ vs → Forced E t x n → Forced E (.tuple t) (.list vs) n
+  /-- a non-sequence given to a sequence type is rejected or wrapped into `[v]` -/
+  | listWrap (t : Ty) (v : Val) (n : Nat) : isList v = false → v ≠ .dict [] → Forced E t v n → Forced E (.list t) v n
+  | tupleWrap (t : Ty) (v : Val) (n : Nat) : isList v = false → v ≠ .dict [] → Forced E t v n → Forced E (.tuple t) v n
+  /-- any value of a mapping (any key) -/
+  | dictMem (kt : KeyTy) (t : Ty) (kvs : List (Key × Val)) (key : Key) (x : Val) (n : Nat) :
+      (key, x) ∈ kvs → Forced E t x n → Forced E (.dict kt t) (.dict kvs) n
+  | dictBad (kt : KeyTy) (t : Ty) (v : Val) (n : Nat) : isDict v = false → Forced E (.dict kt t) v n
+  /-- a union: whichever alternative reads the value (any branch) -/
+  | union (ts : List Ty) (v : Val) (n : Nat) : isNoneVal v = false → (∀ t ∈ ts, Forced E t v n) → Forced E (.union ts) v n
+
 /-! ### weight of a declared type: how many leaf conversions one value node can cost -/
 
 /-- does stage 2 / stage 3 of a union run in a context with preferences `m` (rule.py:383, 399) -/
